@@ -181,58 +181,126 @@ _LOCAL = re.compile(r"(?<![\w.'\"])_[A-Za-z]\w*")
 
 
 class Src(str):
-    """Whitespace-normalised source text whose `in` / `count` tolerate a consistent renaming of local names: every identifier of the
-    *pattern* that starts with an underscore and is not an attribute (kafe2's convention for locals and nested helpers) matches any
-    identifier, the same one at each occurrence and different ones for different pattern names. Everything else is literal."""
+    """Whitespace-normalised source text whose `in` tolerates a consistent renaming of local names.
 
-    _cache = {}
-    # Off: with independent bindings per pattern a swap of two locals between statements is alpha-equivalent to the reference and six catalogue
-    # mutants were missed. Exact text is kept (a pure renaming of locals in a shape-rule function is then reported - documented in DESIGN 10.2).
-    TOLERANT = False
+    An identifier of the *pattern* that starts with an underscore and is not an attribute (kafe2's convention for locals and nested helpers) is a placeholder:
+    it matches any local name - the same one at each occurrence, different ones for different placeholders, and **the same one in every pattern that has been
+    found in this text so far** (the patterns are solved jointly, so exchanging two locals between statements is not equivalent to the reference).
+    Everything else is literal. Keyword names (`f(_x=1)`) are literal too.
+    Plain `in` / `count` stay exact (they are also used to *select* constructs, where a placeholder would select too much); rules opt in with `like` / `all_like`."""
+
+    _rx_cache = {}
+
+    def __new__(cls, value=""):
+        obj = super().__new__(cls, value)
+        obj._accepted = []
+        obj._binding = {}
+        return obj
 
     @staticmethod
-    def _regex(pattern):
-        rx = Src._cache.get(pattern)
-        if rx is None:
-            out, pos, names = [], 0, {}
+    def _pieces(pattern):
+        """[literal, name, literal, name, ..., literal]"""
+        pc = Src._rx_cache.get(pattern)
+        if pc is None:
+            pc, pos = [], 0
             for m in _LOCAL.finditer(pattern):
-                out.append(re.escape(pattern[pos:m.start()]))
-                nm = m.group(0)
-                if nm in names:
-                    out.append("(?P=%s)" % names[nm])
-                else:
-                    names[nm] = "g%d" % len(names)
-                    out.append("(?<![\\w.])(?P<%s>(?!(?:self|np|cls|None|True|False)\\b)[A-Za-z_]\\w*)" % names[nm])
+                if pattern[m.end():m.end() + 1] == "=" and pattern[m.end():m.end() + 2] != "==" and m.start() > 0 and pattern[m.start() - 1] in "(, *":
+                    # keyword argument name only if directly followed by '=' without spaces (unparse style) and preceded by '(' or ', '
+                    if not (m.start() >= 2 and pattern[m.start() - 2:m.start()] in ("; ",)):
+                        if pattern[m.start() - 1] in "(" or pattern[max(0, m.start() - 2):m.start()] == ", ":
+                            continue
+                pc.append(pattern[pos:m.start()])
+                pc.append(m.group(0))
                 pos = m.end()
-                out.append("(?!\\w)")
-            out.append(re.escape(pattern[pos:]))
-            rx = (re.compile("".join(out)), len(names))
-            Src._cache[pattern] = rx
-        return rx
+            pc.append(pattern[pos:])
+            Src._rx_cache[pattern] = pc
+        return pc
 
-    def _matches(self, pattern):
-        rx, n = Src._regex(pattern)
-        if n == 0:
+    def _candidates(self, pattern, binding):
+        """bindings (extensions of `binding`) under which the pattern occurs in the text"""
+        pc = Src._pieces(pattern)
+        names = pc[1::2]
+        if not names:
+            if str.__contains__(self, pattern):
+                yield binding
             return
-        for m in rx.finditer(self):
-            vals = list(m.groupdict().values())
-            if len(set(vals)) == len(vals):
-                yield m
+        out, groups = [], {}
+        for i, piece in enumerate(pc):
+            if i % 2 == 0:
+                out.append(re.escape(piece))
+                continue
+            if piece in binding:
+                out.append("(?<![\\w.])%s(?!\\w)" % re.escape(binding[piece]))
+            elif piece in groups:
+                out.append("(?P=%s)" % groups[piece])
+            else:
+                groups[piece] = "g%d" % len(groups)
+                out.append("(?<![\\w.])(?P<%s>(?!(?:self|np|cls|None|True|False|not|and|or|in|is|if|else|for|lambda|return)\\b)[A-Za-z_]\\w*)(?!\\w)" % groups[piece])
+        rx = re.compile("".join(out))
+        seen = set()
+        used = set(binding.values())
+        pos = 0
+        while True:
+            m = rx.search(self, pos)
+            if m is None:
+                break
+            pos = m.start() + 1
+            vals = {n: m.group(g) for n, g in groups.items()}
+            key = tuple(sorted(vals.items()))
+            if key in seen:
+                continue
+            seen.add(key)
+            if len(set(vals.values())) != len(vals) or set(vals.values()) & used:
+                continue
+            nb = dict(binding)
+            nb.update(vals)
+            yield nb
 
-    def __contains__(self, pattern):
-        if str.__contains__(self, pattern):
+    def _solve(self, patterns, binding=None, i=0):
+        binding = binding or {}
+        if i == len(patterns):
+            return binding
+        for nb in self._candidates(patterns[i], binding):
+            r = self._solve(patterns, nb, i + 1)
+            if r is not None:
+                return r
+        return None
+
+    def like(self, pattern):
+        """`pattern in self` up to a consistent renaming of locals (joint with every pattern accepted before on this text)"""
+        if not hasattr(self, "_accepted"):
+            return str.__contains__(self, pattern)
+        if not Src._pieces(pattern)[1::2]:
+            return str.__contains__(self, pattern)
+        # fast path: consistent with the binding found so far
+        for nb in self._candidates(pattern, self._binding):
+            self._accepted.append(pattern)
+            self._binding = nb
             return True
-        if not Src.TOLERANT:
+        if len(self._accepted) > 14:
             return False
-        for _ in self._matches(pattern):
-            return True
-        return False
+        r = self._solve(self._accepted + [pattern])
+        if r is None:
+            return False
+        self._accepted.append(pattern)
+        self._binding = r
+        return True
 
-    def count(self, pattern, *a):
+    def all_like(self, *patterns):
+        return all(self.like(p_) for p_ in patterns)
+
+    def count_like(self, pattern, *a):
         c = str.count(self, pattern, *a)
-        if c or a or not Src.TOLERANT:
+        if c or a or not hasattr(self, "_accepted"):
             return c
-        return sum(1 for _ in self._matches(pattern))
+        pc = Src._pieces(pattern)
+        if not pc[1::2]:
+            return c
+        best = 0
+        for nb in self._candidates(pattern, self._binding):
+            inst = "".join(nb.get(x, x) if i % 2 else x for i, x in enumerate(pc))
+            best = max(best, str.count(self, inst))
+        return best
 
 
 def src_of(node):
